@@ -21,6 +21,7 @@ from ..base import Goal
 from .dynreorder import ReoWorld, consts_of
 from .k6_autoref_ops import make_autoref
 from .k10_addvar import views_consistent
+from .pickle_rt import MemFile, MemPickle
 
 FUNCTIONS = ['dd.bdd.BDD.apply', 'dd._utils.assert_operator_arity', 'dd.bdd.BDD.let',
              'dd.bdd.BDD.cofactor', 'dd.bdd.BDD.compose', 'dd.bdd.BDD.rename', 'dd.bdd.rename',
@@ -40,7 +41,8 @@ KINDS = ['apply_unknown_op', 'apply_arity', 'apply_foreign', 'let_undeclared_boo
          'level_of_var', 'var_at_level', 'to_expr_foreign', 'add_int_foreign', 'count_foreign',
          'count_small_n', 'pick_foreign', 'cube_undeclared', 'expr_syntax', 'expr_undeclared',
          'expr_dangling_node', 'dump_unknown_type', 'load_unknown_type', 'reorder_bad_order',
-         'autoref_foreign_function', 'configure_unknown']
+         'autoref_foreign_function', 'configure_unknown', 'load_conflicting_levels',
+         'autoref_load_conflicting_levels']
 
 
 class Harness:
@@ -57,6 +59,10 @@ class Harness:
         self.P = base.import_dd('dd._parser')
         self.sh = base.Shadow()
         base.std_shadows(self.sh, self.B)
+        self.store = {}
+        store = self.store
+        self.sh.set(self.B, 'open', lambda name, mode='r': MemFile(store, name, mode))
+        self.sh.set(self.B, 'pickle', MemPickle(store))
 
     def run(self):
         c = engine.CTX
@@ -149,6 +155,18 @@ class Harness:
                 out = abdd.apply('and', A.Function(U, abdd), fo)
             elif kind == 'configure_unknown':
                 out = bdd.configure(nosuch=1)
+            elif kind in ('load_conflicting_levels', 'autoref_load_conflicting_levels'):
+                # a file whose variable levels conflict with this manager's; a
+                # variable unknown here ('zz') precedes the conflicting one
+                self.store['conflict.p'] = dict(
+                    vars={'zz': 2, names[1]: 0, names[0]: 1},
+                    succ={1: (3, None, None), 2: (0, -1, 1)}, roots=[2])
+                if kind == 'load_conflicting_levels':
+                    out = bdd.load('conflict.p')
+                else:
+                    abdd = make_autoref(A, bdd)
+                    self.abdd = abdd
+                    out = abdd.load('conflict.p')
         except Exception as e:
             exc = e.with_traceback(None)     # frames (and temporaries such as handles) are released
         out = None
@@ -162,11 +180,26 @@ class Harness:
         escaped = isinstance(exc, B._NeedsReordering)
         goals.append(Goal('failure_is_not_the_internal_signal', z3.BoolVal(not escaped)))
         # right after the exception
-        goals.append(Goal('old_nodes_unchanged', m.g_frame()))
-        goals.append(Goal('tables_unchanged', state_equal(m.st0, m.st, m.ids, with_cache=False)))
+        goals.append(Goal('old_nodes_unchanged', z3.And([
+            z3.Implies(z3.Select(m.st0.P, k), z3.And(
+                z3.Select(m.st.P, k), z3.Select(m.st.LV, k) == z3.Select(m.st0.LV, k),
+                z3.Select(m.st.LO, k) == z3.Select(m.st0.LO, k),
+                z3.Select(m.st.HI, k) == z3.Select(m.st0.HI, k))) for k in m.ids[1:]])))
+        if not kind.endswith('load_conflicting_levels'):
+            goals.append(Goal('tables_unchanged', state_equal(m.st0, m.st, m.ids, with_cache=False)))
         goals.append(Goal('counts_exact_same_ledger', m.g_refs()))
-        goals.append(Goal('order_still_a_bijection', z3.BoolVal(
-            dict(bdd.vars) == vars0 and views_consistent(bdd))))
+        if kind.endswith('load_conflicting_levels'):
+            # variables of the file may have been declared before the conflict was met
+            ok_order = (all(bdd.vars.get(n) == l for n, l in vars0.items()) and
+                        sorted(bdd.vars.values()) == list(range(len(bdd.vars))) and
+                        {v: k for k, v in bdd.vars.items()} == dict(bdd._level_to_var))
+            if kind.startswith('autoref'):
+                ab = self.abdd
+                ok_order = ok_order and dict(ab.vars) == dict(ab.var_levels) == dict(bdd.vars)
+            goals.append(Goal('order_still_a_bijection_and_views_agree', z3.BoolVal(ok_order)))
+        else:
+            goals.append(Goal('order_still_a_bijection', z3.BoolVal(
+                dict(bdd.vars) == vars0 and views_consistent(bdd))))
         goals.append(Goal('reordering_context_flag_restored', z3.BoolVal(bdd._reordering_context is False)))
         goals.append(Goal('reordering_setting_unchanged', z3.BoolVal(
             (bdd._last_len is None) == (last_len0 is None))))
@@ -175,6 +208,10 @@ class Harness:
         res = base.discharge(goals, [], extract)
         # after the next successful call
         exc2 = r2 = None
+        if kind.endswith('load_conflicting_levels'):
+            res += base.discharge([], [], extract)
+            wit = base.witness(extract)
+            return dict(outcome='rejected:' + kind, goals=res, witness=wit, expect=dict(outcome='returned'))
         try:
             if kind.startswith('expr'):
                 r2 = bdd.add_expr('a /\\ ~ b')
@@ -263,6 +300,24 @@ def _do(kind, bdd, B, A, names, u, v, absent, L):
         return abdd.apply('and', A.Function(u, abdd), other.var(names[0]))
     if kind == 'configure_unknown':
         return bdd.configure(nosuch=1)
+    if kind in ('load_conflicting_levels', 'autoref_load_conflicting_levels'):
+        import os
+        import pickle
+        import shutil
+        import tempfile
+        d = tempfile.mkdtemp(prefix='symdd_c17')
+        try:
+            fn = os.path.join(d, 'conflict.p')
+            with open(fn, 'wb') as f:
+                pickle.dump(dict(vars={'zz': 2, names[1]: 0, names[0]: 1},
+                                 succ={1: (3, None, None), 2: (0, -1, 1)}, roots=[2]), f, protocol=2)
+            if kind == 'load_conflicting_levels':
+                return bdd.load(fn)
+            abdd = make_autoref(A, bdd)
+            bdd._c17_abdd = abdd
+            return abdd.load(fn)
+        finally:
+            shutil.rmtree(d, ignore_errors=True)
     raise KeyError(kind)
 
 
@@ -306,6 +361,18 @@ def replay(case):
             return dict(violates=True, key=f'reject/{kind}/accepted', detail=f'{where} did not raise', observed=obs)
         if isinstance(exc, B._NeedsReordering):
             return dict(violates=True, key=f'reject/{kind}/signal-escapes', detail=where, observed=obs)
+        ab = getattr(bdd, '_c17_abdd', None)
+        if ab is not None:
+            ok = dict(ab.vars) == dict(ab.var_levels) == dict(bdd.vars)
+            try:
+                ab.declare('yy')
+                ok = ok and 'yy' in ab.vars and ab.var('yy') is not None
+            except Exception:
+                ok = False
+            if not ok:
+                return dict(violates=True, key=f'reject/{kind}/order-views-disagree',
+                            detail=f'{where}: after the rejected load, autoref vars {dict(ab.vars)} vs var_levels {dict(ab.var_levels)}',
+                            observed=obs)
         for k, t in held.items():
             if k not in bdd._succ or concrete.tt_named(bdd, k, names) != t:
                 return dict(violates=True, key=f'reject/{kind}/reference-changed',
